@@ -7,7 +7,7 @@ H = 'harness.c08_names'
 def run(rep: Report, tier: str, only=None) -> None:
 	thorough = tier == 'thorough'
 	t = 2400 if thorough else 280
-	n = 3 if thorough else 2
+	n = 2  # identifiers of length 3 multiply the paths by ~18 per symbolic identifier (measured 1 s/path): the thorough tier widens the case split instead
 	firsts = ['a', 'b', '_', 'ab', 'a_', '_1', 'b1', '__'] if not thorough else [x + y for x in 'ab_' for y in ['', 'a', 'b', '_', '1']]
 	jobs = [Job('O2.relativefy', H, 'relativefy_law', {}, t, 'F', 'three identifiers out of 15 (int-selected): DSN.relativefy / EntryPath.relativefy for element-aligned prefixes whose text does not recur later', ('shared_characters',))]
 	for f in firsts:
